@@ -138,6 +138,11 @@ class ExprMixin(ExecBase):
                 else:
                     yield BoundMethod(v, attr, node.value), st
                 return
+            rec0 = S.RECORDS.get(v.ty.name)
+            if rec0 is not None and attr in rec0.consts:
+                cst = rec0.consts[attr]
+                yield (cst() if callable(cst) else const_value(cst)), st
+                return
             # not modelled: does the real class have it at all?
             names, complete = self.real_attrs(v.ty.name)
             if complete and attr not in names:
